@@ -161,6 +161,33 @@ CHECKS = {
         "Restart configured as documented; float64 output; the extra warm-run record at exactly stop is not compared.",
         "DESIGN.md §2 C08",
     ),
+    "C18": (
+        "model_checking",
+        "exhaustive lattice of simulations expressible in the v1 vocabulary, each rendered by three independent renderers (YAML v2, TOML v2, YAML v1): three-way differential on configure() and on the output files",
+        "Every point of (release mode, extra column kind, IBM variable, diffusion, grid section explicit/omitted plain/omitted wildcard) crossed with a "
+        "round-robin (full in thorough) of (subgrid, advection, optional sections omitted/empty, reference time, dt spelling): the three spellings give the same "
+        "normalised configuration and bit-identical records and particle variables; runs with diffusion use one scripted random source.",
+        "v1 vocabulary as in the v1 examples; TOML written by a minimal renderer.",
+        "DESIGN.md §2 C18",
+    ),
+    "C19": (
+        "model_checking",
+        "exhaustive lattice of run length x period x cold/warm x plug-in spelling through main() with all eight modules wrapped by recording plug-ins; call log vs reference protocol automaton + snapshot side conditions",
+        "For every (Nsteps 1-6, period 1-3, cold/warm start, ibm/forcing/grid/output given by path or by name incl. the working-directory-file-vs-sys.path "
+        "precedence case, IBM kill step): the recorded call sequence equals the word (T R F O? K I)^n C* of the reference automaton (warm: R F K I first); "
+        "forcing sees the newly released particles, the record equals the state after forcing with the scalar valid at the record's own position and time, "
+        "the IBM sees the moved particles once per step, IBM kills vanish from the next record on, the module that runs is the one given.",
+        "Wrappers are thin subclasses delegating every call.",
+        "DESIGN.md §2 C19",
+    ),
+    "C20": (
+        "fault_enumeration",
+        "exhaustive single-fault injection: every fault of the list x every base scenario through main(), each base first run fault-free",
+        "8 base scenarios (forward/reversed x single/multi-file forcing x discrete/continuous release) x 33 single faults: the run must end with an error, no "
+        "output record may exist and the recording IBM must never have been called.",
+        "One fault at a time; the error kind is recorded, not prescribed.",
+        "DESIGN.md §2 C20",
+    ),
 }
 
 PENDING_REASON = "check not built yet (work in progress, see DESIGN.md §11 build order)"
